@@ -88,8 +88,6 @@ all_reference_ids: Set[str] = set()
 
 @contextmanager
 def managed_provide_cache(provide_id: str) -> Generator[None, None, None]:
-    all_reference_ids_before = all_reference_ids.copy()
-
     # The `{% provide %}` tag itself holds a reference to the provided data for as long as its body
     # is being rendered. Otherwise, when a component inside the body finishes its rendering before
     # we get to the next one (e.g. two root components next to each other), the data would be deleted
@@ -116,11 +114,10 @@ def managed_provide_cache(provide_id: str) -> Generator[None, None, None]:
     try:
         yield
     except Exception as e:
-        # In case of an error in `Component.render()`, there may be some
-        # references left hanging, so we remove them.
-        new_reference_ids = all_reference_ids - all_reference_ids_before
-        for reference_id in new_reference_ids:
-            unregister_provide_reference(reference_id)
+        # NOTE: The components that were registered while rendering the body unregister themselves
+        # also when their rendering fails (see `cleanup_failed_render()`). We must NOT try to find them
+        # by comparing `all_reference_ids` before and after, because that is shared with the renders
+        # that are running in other threads, and we would unregister their components too.
 
         # Cleanup
         cache_cleanup()
@@ -154,13 +151,15 @@ def unregister_provide_reference(reference_id: str) -> None:
 
     all_reference_ids.remove(reference_id)
 
-    for provide_id in list(provide_references.keys()):
-        if reference_id not in provide_references[provide_id]:
+    # NOTE: The dictionary contains also the entries of the renders that are running in other threads,
+    # and those may be removed at any moment. So we iterate over a copy, and don't look the entries up again.
+    for provide_id, reference_ids in list(provide_references.items()):
+        if reference_id not in reference_ids:
             continue
 
-        provide_references[provide_id].remove(reference_id)
+        reference_ids.remove(reference_id)
 
         # There are no more references to the provided data, so we can delete it.
-        if not provide_references[provide_id]:
-            provide_cache.pop(provide_id)
-            provide_references.pop(provide_id)
+        if not reference_ids:
+            provide_cache.pop(provide_id, None)
+            provide_references.pop(provide_id, None)
